@@ -39,7 +39,7 @@ pub fn validate_refvm(rep: &mut Report) -> u64 {
     n
 }
 
-fn check_case(prog: &T, env: &T, acc: &mut Acc, space: &str) {
+fn check_case(prog: &T, env: &T, acc: &mut Acc, space: &str, heap_too: bool) {
     let canon = |b: u64| format!("prog={} env={} budget={b}", prog.hex(), env.hex());
     let mut vm = Vm::new(adapters(), 0);
     let r = vm.eval(prog, env);
@@ -96,6 +96,22 @@ fn check_case(prog: &T, env: &T, acc: &mut Acc, space: &str) {
             (Err(e), true) => acc.violation(canon(0), format!("[{space}] reference fails ({e}) but the implementation returns {}", o.brief())),
         }
     });
+    // the same tree with every atom heap-backed (what operators such as substr/concat produce at run time, e.g.
+    // an operator or path atom computed by the program): the reference has no notion of representation
+    if heap_too {
+        with_loaded(prog, env, Enc::Heap, |l| {
+            let o = l.run_flags(ClvmFlags::empty(), 0);
+            acc.inc("runs");
+            acc.inc("heap_backed_runs");
+            let same = match &r {
+                Ok(t) => o.ok && !o.panicked && o.digest == t_digest(t) && o.cost as u128 == c,
+                Err(_) => !o.ok && !o.panicked,
+            };
+            if !same {
+                acc.violation(format!("prog={} env={} budget=0 atoms=heap-backed", prog.hex(), env.hex()), format!("[{space}] with heap-backed atoms the implementation gives {}, the reference {}", o.brief(), r.as_ref().map(|t| format!("{} cost {c}", t.hex())).unwrap_or_else(|e| format!("fails ({e})"))));
+            }
+        });
+    }
 }
 
 /// softfork guards restricted to what the reference defines (classic inner programs)
@@ -195,7 +211,7 @@ pub fn run(ctx: &Ctx) -> Report {
         let t_space = std::time::Instant::now();
         let acc = par_for(ctx, sp.total, 256, |i| { let (p, e) = sp.at(i); format!("prog={} env={}", p.hex(), e.hex()) }, |i, acc| {
             let (p, e) = sp.at(i);
-            check_case(&p, &e, acc, &sp.name);
+            check_case(&p, &e, acc, &sp.name, !sp.name.starts_with("P3"));
             acc.inc("programs");
             acc.maybe_sample(sample_key(seed, i ^ fnv(sp.name.as_bytes())), || json!({"space": sp.name, "prog": p.hex(), "env": e.hex()}));
         });
@@ -205,7 +221,7 @@ pub fn run(ctx: &Ctx) -> Report {
     // repository programs
     let mut acc = Acc::default();
     for (name, t) in repo_programs() {
-        check_case(&t, &nil(), &mut acc, &name);
+        check_case(&t, &nil(), &mut acc, &name, true);
         acc.inc("programs");
     }
     rep.absorb(acc);
@@ -215,7 +231,7 @@ pub fn run(ctx: &Ctx) -> Report {
     rep.states = rep.acc.get("programs");
     rep.transitions = rep.acc.get("runs");
     rep.traces = rep.acc.get("programs") - rep.acc.get("out_of_model_scope_depth");
-    rep.rule = "every program of the grammars P1 (operator applications over the classic opcodes, unassigned 15/28/31/35 and multi-byte unknown opcodes, arity<=3, constants+env paths), RAW ((op . t) a b . term) forms, P2 (all ordered compositions of classic operators), P3 (every tree as a program against every small environment), P4 (recursive / allocation-heavy families for every n), P5 (softfork guards with exact, off-by-k, huge, negative and non-canonical declared costs, known/unknown extensions, failing inner programs, malformed guards) is run by the real run_program with default flags and by the reference interpreter RefVM; oracle: both fail, or same result tree and same cost, and under budgets C, C-1, C+1, C/2 the same success/failure. Consensus changes are named adapters on the reference side with use counts in coverage.counts.adapter_*. Non-trivial = programs on which both succeed (value and cost compared).".into();
+    rep.rule = "(every space except P3 is run twice: atoms loaded in-place where possible, and every atom heap-backed as run-time operators produce them) every program of the grammars P1 (operator applications over the classic opcodes, unassigned 15/28/31/35 and multi-byte unknown opcodes, arity<=3, constants+env paths), RAW ((op . t) a b . term) forms, P2 (all ordered compositions of classic operators), P3 (every tree as a program against every small environment), P4 (recursive / allocation-heavy families for every n), P5 (softfork guards with exact, off-by-k, huge, negative and non-canonical declared costs, known/unknown extensions, failing inner programs, malformed guards) is run by the real run_program with default flags and by the reference interpreter RefVM; oracle: both fail, or same result tree and same cost, and under budgets C, C-1, C+1, C/2 the same success/failure. Consensus changes are named adapters on the reference side with use counts in coverage.counts.adapter_*. Non-trivial = programs on which both succeed (value and cost compared).".into();
     rep.trusted_base.push("harness/src/refvm.rs: transcription of the historical Python clvm interpreter, validated at start-up against the repository's v1 operator vectors".into());
     rep.assumptions.push("adapters: floor_div (no q+1 quirk for negative quotients), arg_list_terminator_ignored, inner_list_terminator_ignored, softfork_guard (u64 declared cost, guard execution, exact cost, nil), budget 0 = u64::MAX".into());
     rep
